@@ -93,16 +93,22 @@ class Harness:
         mt = None
         world = None
 
+        mm_box = []
+
         def extract(model):
             case = dict(source=ms.extract(model), harness='pickle_rt')
             if mt is not None:
                 case['target'] = mt.extract(model)
+            if mm_box:
+                case['manager'] = mm_box[0].extract(model)
             case['args'] = dict(variant=variant, perm=perm, u1=base.ev_int(model, u1),
                                 u2=base.ev_int(model, u2))
             return case
 
         if variant == 'manager':
             mm = SymMgr(N, 0, L, names=names, with_cache=True, tag='m')
+            mm.decl = 'choose'
+            mm_box.append(mm)
             mm.assume_pre()
             b0 = mm.install(self.B)
             b0.roots = {1}
@@ -236,7 +242,30 @@ def replay(case):
     obs = dict(outcome='returned')
     try:
         if variant == 'manager':
-            return dict(violates=False, detail='manager variant replayed symbolically only', observed=obs)
+            cm = dict(case['manager'])
+            ext = concrete.ext_of(cm)
+            bad0 = concrete.check_inv(concrete.install(cm), ext)
+            if bad0:
+                return dict(violates=False, invalid_pre=True, detail=str(bad0[:3]))
+            b0 = concrete.install(cm, B)
+            b0.roots = {1}
+            try:
+                b0._dump_manager(fn)
+                b1 = B.BDD._load_manager(fn)
+            except Exception as e:
+                return dict(violates=True, key='pickle/manager-raises', detail=repr(e), observed=obs)
+            b1.__class__ = nodel_class(B)
+            same = (dict(b1.vars) == dict(b0.vars) and b1._succ == b0._succ and b1._pred == b0._pred
+                    and b1._ref == b0._ref and b1._min_free == b0._min_free and b1.roots == b0.roots
+                    and dict(b1._level_to_var) == dict(b0._level_to_var))
+            if not same:
+                return dict(violates=True, key='pickle/manager-not-reproduced',
+                            detail=f'_dump_manager/_load_manager: vars {b0.vars} -> {b1.vars}', observed=obs)
+            for k in b0._succ:
+                if concrete.tt_named(b0, k, names) != concrete.tt_named(b1, k, names):
+                    return dict(violates=True, key='pickle/manager-not-reproduced',
+                                detail=f'node {k} denotes another function after the manager round trip', observed=obs)
+            return dict(violates=False, detail='ok', observed=obs)
         src = concrete.install(cs, B)
         if variant.startswith('fresh'):
             dst = nodel_class(B)()
